@@ -2533,6 +2533,20 @@ theorem pairBlocks_get (d : AssemDesign) (r : List (String × Rat × String × N
     simp [hk, hc]
   · cases h
 
+/-- **a block design stacked at several axial positions keeps the attributes of each position**: when positions `j` and `k`
+hold the same design — even with equal heights and mesh counts — the blocks built there carry `xsTypes[j]` and `xsTypes[k]`
+respectively (never the cross-section type of the first occurrence of the design) -/
+theorem repeated_design_keeps_own_xs (d : AssemDesign) (r : List (String × Rat × String × Nat)) (h : pairBlocks d = some r)
+    (j k : Nat) (hj : j < d.blocks.length) (hk : k < d.blocks.length) (_hsame : d.blocks[j] = d.blocks[k]) :
+    ∃ pj pk, r[j]? = some pj ∧ r[k]? = some pk ∧
+      pj.2.2.1 = d.xsTypes[j]'(by unfold pairBlocks consistent at h; split at h <;> simp_all) ∧
+      pk.2.2.1 = d.xsTypes[k]'(by unfold pairBlocks consistent at h; split at h <;> simp_all) :=
+  ⟨_, _, pairBlocks_get d r h j hj, pairBlocks_get d r h k hk, rfl, rfl⟩
+
+example : pairBlocks ⟨"a", "A1", ["refl", "fuel", "fuel", "fuel", "refl"], [10, 25, 25, 25, 10], ["R", "A", "B", "C", "S"], [1, 2, 2, 2, 1]⟩ =
+    some [("refl", 10, "R", 1), ("fuel", 25, "A", 2), ("fuel", 25, "B", 2), ("fuel", 25, "C", 2), ("refl", 10, "S", 1)] := by
+  decide +kernel
+
 /-- **a modifier list of the wrong length is refused**, by block or by component, whatever the other lists are -/
 theorem unequal_modifier_list_refused (nBlocks : Nat) (lens : List Nat) (n : Nat) (hn : n ∈ lens) (hne : n ≠ nBlocks) :
     listsConsistent nBlocks lens = false := by
